@@ -602,14 +602,14 @@ def gen_tf(ctx, n):
 def gen_cases(ctx):
   quick = ctx.tier == "quick"
   cases = []
-  ds_rows, stats = gen_ds(ctx, 0 if quick else 2200, 1 if quick else 4)
+  ds_rows, stats = gen_ds(ctx, 110 if quick else 2200, 1 if quick else 4)
   ctx.cov["pairwise"] = stats
   for why, row, tr in ds_rows:
     cfg, x64 = row_to_case(row)
     cases.append(dict(opt="ds", cfg=cfg, x64=x64, tree=tr, why=why, row=row))
-  for why, cfg, tr in gen_sm3(ctx, 8 if quick else 150):
+  for why, cfg, tr in gen_sm3(ctx, 10 if quick else 150):
     cases.append(dict(opt="sm3", cfg=cfg, x64=False, tree=tr, why=why))
-  for opt, cfg, tr in gen_tf(ctx, 40 if quick else 700):
+  for opt, cfg, tr in gen_tf(ctx, 60 if quick else 700):
     cases.append(dict(opt=opt, cfg=cfg, x64=False, tree=tr, why=opt))
   for i, c in enumerate(cases):
     c["id"] = i
